@@ -303,7 +303,7 @@ def find_item(src, selector):
     pairs = []
     cur = None
     for p in parts:
-        m = re.match(r"^(fn|struct|enum|const|static|impl|trait|macro|mod|type|nth):(.*)$", p)
+        m = re.match(r"^(fn|struct|enum|const|static|impl|trait|macro_call|macro|mod|type|nth):(.*)$", p)
         if m:
             cur = [m.group(1), m.group(2)]
             pairs.append(cur)
